@@ -133,6 +133,14 @@ func sharedAcrossServices(idx int) *ir.Request {
 				{Name: "Last", Input: ".feed.v1.FeedReq", Output: Z + "OneofFlatZ", Config: &ir.HTTPConfig{Path: "/last", Method: "POST"}},
 				{Name: "Put", Input: Z + "FlatNullZ", Output: Z + "PlainStamps", Config: &ir.HTTPConfig{Path: "/put", Method: "PUT"}}}},
 		}}
+	// comments on what the imported file declares (and on the importing one): a description comes from the file that
+	// DECLARES the element, whether or not that file is generated in the same invocation
+	zoo.Comments = map[string]string{
+		"msg:OneofFlatZ": " An event, flattened.\n\n Second paragraph.\n", "field:OneofFlatZ.id": " Event identifier.\n",
+		"msg:FlatNullZ": " A place with two addresses.\n", "field:FlatNullZ.id": " Place identifier.\n",
+		"msg:PlainStamps": " Stamps of every shape.\n", "msg:EmptyStampZ": " May be empty.\n", "msg:OneofNestedZ": " An event, nested.\n",
+	}
+	feed.Comments = map[string]string{"svc:FeedSvc": " The feed.\n", "rpc:FeedSvc.List": " Lists events.\n", "msg:Feed": " One page.\n", "field:Feed.events": " The events.\n"}
 	return &ir.Request{Files: []*ir.File{zoo, feed}, Generate: []string{zoo.Name, feed.Name}}
 }
 
